@@ -35,6 +35,7 @@ _r_partial_enum = re.compile(r"=\s*\.\.\.\s*[,}]|\.\.\.\s*\}")
 _r_enum_dotdotdot = re.compile(r"__dotdotdot\d+__$")
 _r_partial_array = re.compile(r"\[\s*\.\.\.\s*\]")
 _r_words = re.compile(r"\w+|\S")
+_r_other_whitespace = re.compile(r"[\r\f\v]")
 _parser_cache = None
 _r_int_literal = re.compile(r"-?(0x[0-9a-f]+|0[0-7]*|[1-9][0-9]*)[lu]*$",
                             re.IGNORECASE)
@@ -196,6 +197,9 @@ def _put_back_line_directives(csource, line_directives):
     return _r_line_directive.sub(replace, csource)
 
 def _preprocess(csource):
+    # pycparser's lexer only knows about ' ', '\t' and '\n': turn the other
+    # C white space characters (e.g. the '\r' of "\r\n") into spaces
+    csource = _r_other_whitespace.sub(' ', csource)
     # First, remove the lines of the form '#line N "filename"' because
     # the "filename" part could confuse the rest
     csource, line_directives = _remove_line_directives(csource)
